@@ -23,6 +23,9 @@ ApplyRect(m, r) ==
 \* a rectangle is any two diagonally opposite corners (ISO 32000-1 7.9.5): the normalised form
 Norm(b) == <<Min2(b[1], b[3]), Min2(b[2], b[4]), Max2(b[1], b[3]), Max2(b[2], b[4])>>
 
+\* the intersection of two normalised rectangles that overlap
+Intersect(a, b) == <<Max2(a[1], b[1]), Max2(a[2], b[2]), Min2(a[3], b[3]), Min2(a[4], b[4])>>
+
 \* ---- the code's steps
 \* PDFPage.__init__:  (int_value(attrs.get("Rotate", 0)) + 360) % 360
 RotNorm(r) == (r + 360) % 360
